@@ -120,6 +120,9 @@ def main():
     case("in_range", lambda i: instr.contains(i, range(3, 7)), [(0, 10)], [(i,) for i in range(0, 11)])
     lin = [0, 0x3B6A57B2, 0x26508E6D, 0x3B6A57B2 ^ 0x26508E6D]
     case("linear_table", lambda i: instr.getitem(lin, i), [(0, 3)], [(i,) for i in range(4)])
+    case("bytes_hex", lambda a, b, c: mk(a, b, c).hex(), [B, B, B], bs + [(0x0a, 0xa0, 0x9f), (0x99, 0x10, 0xf0)])
+    case("bytes_hex_upper", lambda a, b, c: mk(a, b, c).hex().upper(), [B, B, B], bs + [(0x0a, 0xa0, 0x9f)])
+    case("bytes_hex_fromhex", lambda a, b, c: instr.call(bytes.fromhex, mk(a, b, c).hex()), [B, B, B], bs + [(0x0a, 0xa0, 0x9f)])
     # BytesIO
     def bio(a, b, n):
         s = instr.call(io.BytesIO, mk(a, b, 3, 4))
@@ -130,6 +133,9 @@ def main():
     C = (0, 127)
     ms = lambda *xs: SymStr.mk(list(xs)) if any(isinstance(x, SymInt) for x in xs) else "".join(chr(x) for x in xs)  # noqa: E731
     ss = [(65, 98, 49), (49, 49, 49), (122, 90, 64), (97, 91, 123), (0, 127, 96), (113, 49, 112)]
+    case("str_fromhex", lambda a, b, c: instr.call(bytes.fromhex, ms(a, b, c, 0x37)), [C, C, C],
+         [(48, 57, 97), (102, 65, 70), (103, 48, 48), (47, 48, 48), (58, 48, 48), (64, 48, 48), (71, 48, 48), (96, 48, 48), (48, 48, 0)])
+    case("str_fromhex_odd", lambda a, b, c: instr.call(bytes.fromhex, ms(a, b, c)), [C, C, C], [(48, 57, 97), (102, 65, 70)])
     case("str_lower", lambda a, b, c: ms(a, b, c).lower(), [C, C, C], ss)
     case("str_upper", lambda a, b, c: ms(a, b, c).upper(), [C, C, C], ss)
     case("str_rfind", lambda a, b, c: ms(a, b, c).rfind("1"), [C, C, C], ss)
